@@ -22,6 +22,20 @@ SWAP_METHOD = {
 FIXED_METHOD = {"top_left", "bottom_right", "center", "make_from", "__add__", "__sub__"}
 SWAP_NAME = {"trunk_width": "trunk_height", "trunk_height": "trunk_width"}
 SWAP_ORIENT = {"VERTICAL": "HORIZONTAL", "HORIZONTAL": "VERTICAL"}
+SWAP_TOKEN = {"width": "height", "height": "width"}
+
+
+def swap_identifier(name: str) -> str:
+    """`trunk_width` <-> `trunk_height`, whatever else the identifier contains (token-wise, so a renamed
+    local such as `trunk_width_px` still has its transposed partner)."""
+    if name in SWAP_NAME:
+        return SWAP_NAME[name]
+    parts = name.split("_")
+    if any(p in SWAP_TOKEN for p in parts):
+        return "_".join(SWAP_TOKEN.get(p, p) for p in parts)
+    return name
+
+
 CTOR2 = {"Position", "Size"}
 CTOR4 = {"Rect"}
 
@@ -32,8 +46,9 @@ class Sigma(ast.NodeTransformer):
         self.vector_params = set(vector_params)
 
     def visit_Name(self, node: ast.Name):
-        if node.id in SWAP_NAME:
-            return ast.copy_location(ast.Name(id=SWAP_NAME[node.id], ctx=node.ctx), node)
+        swapped = swap_identifier(node.id)
+        if swapped != node.id:
+            return ast.copy_location(ast.Name(id=swapped, ctx=node.ctx), node)
         return node
 
     def visit_Attribute(self, node: ast.Attribute):
